@@ -74,6 +74,7 @@ type Inner struct {
 type Item struct{ Name string }
 type Msg struct {
 	Name   string
+	Ключ   string // plan.UniField: the key field "name" is called "ключ" (locators and Go field names are not ASCII-only)
 	Nested *Inner
 	Names  []string
 	Items  []*Item
@@ -89,6 +90,7 @@ type MsgB struct {
 	Nested *Inner
 	Pad    string
 	Name   string
+	Ключ   string
 }
 
 // usesMsgB: which methods use the second layout (one of the extra methods, so
@@ -103,7 +105,7 @@ func buildMsgFor(method, loc int, keys []string) interface{} {
 	if !usesMsgB(method) {
 		return m
 	}
-	return &MsgB{Num: m.Num, Items: m.Items, Names: m.Names, Nested: m.Nested, Pad: "not-a-key", Name: m.Name}
+	return &MsgB{Num: m.Num, Items: m.Items, Names: m.Names, Nested: m.Nested, Pad: "not-a-key", Name: m.Name, Ключ: m.Ключ}
 }
 
 //go:norace
@@ -130,11 +132,19 @@ func buildMsg(loc int, keys []string) *Msg {
 		}
 	default:
 		if len(keys) > 0 {
-			m.Name = keys[0]
+			if uniField {
+				m.Ключ = keys[0]
+			} else {
+				m.Name = keys[0]
+			}
 		}
 	}
 	return m
 }
+
+// uniField: the current run calls the top-level key field "ключ" (plain memory:
+// a worker executes one run at a time and sets it before the run's first task).
+var uniField bool
 
 //go:norace
 func fillMsg(dst *Msg, src *Msg) { *dst = *src }
@@ -153,6 +163,7 @@ func newDynType() reflect.Type {
 	dynSeq++
 	return reflect.StructOf([]reflect.StructField{
 		{Name: "Name", Type: reflect.TypeOf("")},
+		{Name: "Ключ", Type: reflect.TypeOf("")},
 		{Name: "Nested", Type: reflect.TypeOf((*Inner)(nil))},
 		{Name: "Names", Type: reflect.TypeOf([]string(nil))},
 		{Name: "Items", Type: reflect.TypeOf([]*Item(nil))},
@@ -175,6 +186,7 @@ func dynMsg(t reflect.Type, loc int, keys []string) interface{} {
 func fillDyn(dst interface{}, src *Msg) {
 	e := reflect.ValueOf(dst).Elem()
 	e.FieldByName("Name").SetString(src.Name)
+	e.FieldByName("Ключ").SetString(src.Ключ)
 	e.FieldByName("Nested").Set(reflect.ValueOf(src.Nested))
 	e.FieldByName("Names").Set(reflect.ValueOf(src.Names))
 	e.FieldByName("Items").Set(reflect.ValueOf(src.Items))
@@ -335,7 +347,7 @@ func (s *Sim) buildAPIConfig() *pb.ApiConfig {
 	if !c.NilPool {
 		api.ChannelPool = &pb.ChannelPoolConfig{
 			MinSize: c.Min, MaxSize: c.Max, MaxConcurrentStreamsLowWatermark: c.WM,
-			FallbackToReady: c.Fallback, UnresponsiveCalls: c.UCalls, UnresponsiveDetectionMs: c.UMs,
+			FallbackToReady: c.Fallback, UnresponsiveCalls: c.UCalls, UnresponsiveDetectionMs: c.UMs, IdleTimeout: c.Idle,
 		}
 		if c.RR {
 			api.ChannelPool.BindPickStrategy = pb.ChannelPoolConfig_ROUND_ROBIN
@@ -354,7 +366,11 @@ func (s *Sim) buildAPIConfig() *pb.ApiConfig {
 			if e.unknownCmd {
 				cmd = pb.AffinityConfig_Command(7)
 			}
-			mc.Affinity = &pb.AffinityConfig{Command: cmd, AffinityKey: e.locator}
+			loc := e.locator
+			if s.plan.UniField && loc == "name" {
+				loc = "ключ"
+			}
+			mc.Affinity = &pb.AffinityConfig{Command: cmd, AffinityKey: loc}
 		}
 		api.Method = append(api.Method, mc)
 	}
@@ -486,6 +502,8 @@ func Run(t *testing.T, plan *Plan, src *simkit.Source, opts Options) *simkit.Res
 	res := &simkit.Result{}
 	simkit.SetVerbose(plan.Verbose)
 	defer simkit.SetVerbose(false)
+	uniField = plan.UniField
+	defer func() { uniField = false }()
 	if plan.Verbose {
 		res.Count("fault:verbose_logging", 1)
 	}
